@@ -69,6 +69,44 @@ Theorem C01_pic_size : forall e a r, e_stack e = a :: r -> run e OP_SIZE fe pc =
 Theorem C01_pic_toalt : forall e a r, e_stack e = a :: r -> run e OP_TOALTSTACK fe pc = (set_stack (set_alt e (a :: e_alt e)) r, SOk). Proof. exact (pic_toalt low_s c fe pc). Qed.
 Theorem C01_pic_fromalt : forall e a r, e_alt e = a :: r -> run e OP_FROMALTSTACK fe pc = (set_alt (set_stack e (a :: e_stack e)) r, SOk). Proof. exact (pic_fromalt low_s c fe pc). Qed.
 Theorem C01_pic_equal : forall e a b r, e_stack e = a :: b :: r -> run e OP_EQUAL fe pc = with_stack e ((if bytes_eqb b a then [1] else []) :: r). Proof. exact (pic_equal low_s c fe pc). Qed.
+(* control flow: an executed OP_IF / OP_NOTIF consumes the top element and opens a nesting level with its truth value (negated for NOTIF);
+   a non-minimal boolean fails exactly where the minimal-if rule applies (tapscript always, witness v0 under MINIMALIF, legacy never) *)
+Theorem C01_pic_if_executed : forall e a r (notif : bool), e_stack e = a :: r ->
+  run e (if notif then OP_NOTIF else OP_IF) true pc =
+  if nonminimal_bool a && negb (minimalif_rule c =? 0) then fail e (minimalif_rule c)
+  else (set_cond (set_stack e r) (cs_push (e_cond e) (if notif then negb (cast_to_bool a) else cast_to_bool a)), SOk).
+Proof. exact (pic_if_exec low_s c pc). Qed.
+Theorem C01_pic_if_executed_empty : forall e (notif : bool), e_stack e = [] ->
+  run e (if notif then OP_NOTIF else OP_IF) true pc = fail e SCRIPT_ERR_UNBALANCED_CONDITIONAL.
+Proof. exact (pic_if_exec_empty low_s c pc). Qed.
+(* ... in a branch that is not executed it only opens one more (false) level *)
+Theorem C01_pic_if_skipped : forall e (notif : bool),
+  run e (if notif then OP_NOTIF else OP_IF) false pc = (set_cond e (cs_push (e_cond e) false), SOk).
+Proof. exact (pic_if_skipped low_s c pc). Qed.
+Theorem C01_pic_else : forall e, run e OP_ELSE fe pc =
+  if cs_empty (e_cond e) then fail e SCRIPT_ERR_UNBALANCED_CONDITIONAL else (set_cond e (cs_toggle (e_cond e)), SOk).
+Proof. exact (pic_else low_s c fe pc). Qed.
+Theorem C01_pic_endif : forall e, run e OP_ENDIF fe pc =
+  if cs_empty (e_cond e) then fail e SCRIPT_ERR_UNBALANCED_CONDITIONAL else (set_cond e (cs_pop (e_cond e)), SOk).
+Proof. exact (pic_endif low_s c fe pc). Qed.
+Theorem C01_pic_verify : forall e a r, e_stack e = a :: r ->
+  run e OP_VERIFY fe pc = if cast_to_bool a then with_stack e r else fail e SCRIPT_ERR_VERIFY.
+Proof. exact (pic_verify low_s c fe pc). Qed.
+Theorem C01_pic_return : forall e, run e OP_RETURN fe pc = fail e SCRIPT_ERR_OP_RETURN.
+Proof. exact (pic_return low_s c fe pc). Qed.
+(* the five hash opcodes replace the top element by its digest *)
+Theorem C01_pic_hash : forall e a r opcode, e_stack e = a :: r -> In opcode [OP_RIPEMD160; OP_SHA1; OP_SHA256; OP_HASH160; OP_HASH256] ->
+  run e opcode fe pc =
+  with_stack e ((if opcode =? OP_RIPEMD160 then h_ripemd160 (c_hash c) a
+                 else if opcode =? OP_SHA1 then h_sha1 (c_hash c) a
+                 else if opcode =? OP_SHA256 then h_sha256 (c_hash c) a
+                 else if opcode =? OP_HASH160 then h_ripemd160 (c_hash c) (h_sha256 (c_hash c) a)
+                 else h_sha256 (c_hash c) (h_sha256 (c_hash c) a)) :: r).
+Proof. exact (pic_hash low_s c fe pc). Qed.
+(* OP_1NEGATE, OP_1 .. OP_16 push the number *)
+Theorem C01_pic_smallint : forall e opcode, opcode = OP_1NEGATE \/ OP_1 <= opcode <= OP_16 ->
+  run e opcode fe pc = with_stack e (sn_serialize (opcode - 80) :: e_stack e).
+Proof. exact (pic_smallint low_s c fe pc). Qed.
 End Pictures.
 
 (* ---- truth value of stack items, minimal pushes, conditional nesting *)
@@ -125,6 +163,13 @@ Print Assumptions C01_num_binary.
 Print Assumptions C01_num_within.
 Print Assumptions C01_pic_2rot.
 Print Assumptions C01_pic_pick_roll.
+Print Assumptions C01_pic_if_executed.
+Print Assumptions C01_pic_if_skipped.
+Print Assumptions C01_pic_else.
+Print Assumptions C01_pic_endif.
+Print Assumptions C01_pic_verify.
+Print Assumptions C01_pic_hash.
+Print Assumptions C01_pic_smallint.
 Print Assumptions C01_casttobool.
 Print Assumptions C01_minimal_push.
 Print Assumptions C01_condstack_refines.
